@@ -206,7 +206,7 @@ theorem vars_inherited_by_precedence (vm : List Msg) (h : List Form) (hv : valid
       | defmethod fl k m id =>
         simp only [definedR] at this
         simp [ownSlotR, ih this]
-  simp [List.findSome?_cons, hvan]
+  simp [hvan]
 
 example : specSlot exampleHistory 3 1 = some (some 5) := by decide
 example : specSlot exampleHistory 3 2 = some none := by decide
